@@ -483,7 +483,7 @@ theorem toInteger_ndl (P : Prims) (L : PrimLaws P) (E : Env) (n : Bool) (c : Nat
         simp only [intAfter, hl, Bool.false_eq_true, if_false, intFinish, decimalOf, he]
         cases c with
         | zero =>
-          simp [intAfter, isInstT, isInst, V.cls?, Base.sub] at hr
+          simp [intAfter, intOfInst, isInstT, isInst, V.cls?, Base.sub] at hr
           by_cases h0 : e ≥ 0 <;> simp [intOfDec, h0, ← hr]
         | succ k =>
           simp [intAfter, isInstT, V.cls?, intFinish, decimalOf, intOfDec, decFinExp0] at hr
